@@ -216,6 +216,7 @@ def run_phase(root: str, phase: dict, trace=None, rng_seed: str = "") -> dict:  
         "kill_sites": sim.kill_sites,
         "probes": sim.probes,
         "killed": [a.idx for a in sim.actors if a.state == "killed"],
+        "killed_at": sim.killed_at,
         "step_cap": step_cap,
         "listing_digest": core.sha(listing),
         "n_files": len(listing),
